@@ -485,7 +485,7 @@ func (g *gen) mdBlock() string {
 // ---- the RISKY stream: one construct family per document
 
 var riskyFamilies = []string{"js-regex", "js-template-literal", "html-comment-markup", "tag-context", "bytes-in-html",
-	"render-other-format", "unquoted-empty", "attr-subcontext", "string-escaped-backslash", "js-block-comment"}
+	"render-other-format", "unquoted-empty", "attr-subcontext", "string-escaped-backslash", "js-block-comment", "css-comment-quote", "script-end-tag-slash"}
 
 func (g *gen) riskyDoc() doc {
 	g.feats = nil
@@ -513,6 +513,13 @@ func (g *gen) riskyDoc() doc {
 		d.src = `<p>{{ render "x.txt" }}</p>`
 	case "unquoted-empty":
 		d.src = "<input value=" + h() + g.pick(" disabled>", " type=text>", ` class="c">`)
+	case "css-comment-quote":
+		d.src = "<style>/* " + g.pick("it's", `say "x"`, "don't") + " */ a { color: " + g.hole(cssValVars) + `; } b::after { content: "` + h() + `" }</style>`
+	case "script-end-tag-slash":
+		d.src = "<script>var x = 1;" + g.pick("</script/>", "</script\f>", "</style/>") + g.pick(`<a title="`+h()+`">`, "<p>"+h()+"</p>")
+		if strings.Contains(d.src, "</style/>") {
+			d.src = strings.Replace(d.src, "<script>var x = 1;", "<style>a{}", 1)
+		}
 	case "js-block-comment":
 		d.src = "<script>/* " + g.word() + " " + h() + " */ var e = " + v() + ";</script>"
 	case "string-escaped-backslash":
